@@ -236,3 +236,10 @@ def run(chk):
     from . import guardrules
     ng_ = guardrules.check(chk, c, 'C14-G', ['core.Element.find_child_reference', 'core.SupportComplexDataType.find_child_reference', 'core.Field.find_child_reference', 'core.Segment.find_child_reference', 'core.Group.find_child_reference', 'core.Message.find_child_reference', 'core.Field._do_traversal', 'core._valid_child_name', 'core.ElementList.create_element'])
     chk.floor('refusal predicates compared (C14-G)', ng_, 1)
+
+    chk.rule('C14-D', 'decision structure of the functions this property is anchored in: every effect statement (store, call, return, '
+                   'raise) runs under the same combinations of the function\'s elementary tests as in the reviewed tree, and none '
+                   'was deleted (reference/decisions.json; compared by meaning, rewritten functions are not compared)')
+    from . import guardrules as _gr
+    nd2_ = _gr.check_decisions(chk, c, 'C14-D', lambda fq_: fq_.startswith(('core.Field.', 'core._valid_')))
+    chk.floor('functions compared with the decision reference (C14-D)', nd2_, 1)
